@@ -552,7 +552,9 @@ fn check_qcase(case: &QCase, rules: &[Rule], st: &mut Stats) {
 #[derive(Clone, Debug, PartialEq, Eq, Hash)]
 struct Side {
     rule: usize,
-    /// 0 = Append to Aux.items, 1 = Retract of Aux.gone, 2 = Set of Aux.note
+    /// 0 = Append to Aux.items, 1 = Retract of Aux.gone, 2 = Set of Aux.note,
+    /// 3 = a method call on an object that does not exist (the action FAILS: the rule's execution
+    /// returns Err after whatever ran before it)
     kind: u8,
     first: bool,
 }
@@ -575,7 +577,7 @@ impl SCase {
             self.side
                 .iter()
                 .map(|s| {
-                    let text = ["Append Aux.items += \"x\"", "Retract Aux.gone", "Set Aux.note = 7"][s.kind as usize % 3];
+                    let text = ["Append Aux.items += \"x\"", "Retract Aux.gone", "Set Aux.note = 7", "MethodCall Aux.nobody.touch() (fails: no such object)"][s.kind as usize % 4];
                     json!({"rule_index": s.rule, "action": text, "kind": s.kind, "before_the_conclusions": s.first})
                 })
                 .collect(),
@@ -606,10 +608,11 @@ fn with_side_effects(rules: &[Rule], side: &[Side]) -> Vec<Rule> {
     let mut rules = rules.to_vec();
     for s in side {
         let Some(r) = rules.get_mut(s.rule) else { continue };
-        let a = match s.kind % 3 {
+        let a = match s.kind % 4 {
             0 => ActionType::Append { field: "Aux.items".into(), value: Value::String("x".into()) },
             1 => ActionType::Retract { object: "Aux.gone".into() },
-            _ => ActionType::Set { field: "Aux.note".into(), value: Value::Integer(7) },
+            2 => ActionType::Set { field: "Aux.note".into(), value: Value::Integer(7) },
+            _ => ActionType::MethodCall { object: "Aux.nobody".into(), method: "touch".into(), args: vec![] },
         };
         if s.first {
             r.actions.insert(0, a);
@@ -657,12 +660,15 @@ fn sviolation(c: &SCase, detail: &str, obs: &QObs) -> Violation {
                 "Aux.gone" => "Retract",
                 _ => "Set",
             };
+            let _ = c.side.iter().any(|s| s.kind % 4 == 3);
             if !kinds.contains(&n) {
                 kinds.push(n);
             }
         }
         kinds.sort();
         format!("side-effect-action-not-undone:{}", kinds.join("+"))
+    } else if c.side.iter().any(|s| s.kind % 4 == 3) {
+        "after-an-action-of-a-candidate-rule-failed".to_string()
     } else if c.negated {
         "negated-query".to_string()
     } else {
@@ -753,7 +759,7 @@ impl Check for C10 {
         "C10"
     }
     fn rule(&self) -> String {
-        "(b) Facts API, exhaustive: ALL sequences of length L (5 quick, 6 thorough) over the 20-operation alphabet begin / commit / rollback / set(k, 1 | {f:0}) / set_nested(k.f, 1 | 2) / remove(k), k in {a,b,c}, plus set / remove of the FLAT key \"a.x\" (a name that extends the key a), from 2 initial stores ({} and {a:{f:0}, b:0}); the whole store is compared with the stack-of-snapshots model after every operation, so every prefix (every shorter sequence) is checked too. random: lengths 6..=10 over the same alphabet with begin/commit/rollback weighted up. A sequence is non-trivial when it rolls back at least one frame in which the store had changed; distinct by (initial store, operations). (a) queries: the C09 generator (Horn KBs of 1..=8 rules from GRL text, chains to depth 6 with wrong-value conclusions, dead ends, cycles, parents with two sub-goals; 14 queries per KB; dfs/bfs/iterative; max_depth 0..=6; max_solutions 1 or 3); every answer `provable == false` is judged; non-trivial when some candidate rule of the goal is fireable in the reference closure (the attempt could derive something before failing). (a2) one in three of those queries is asked again over the same rules with 1-3 side-effect actions added to the parsed rules (Append to an array, Retract of a key, Set of an unrelated key; before or after the rule's conclusions; the touched keys Aux.* occur in no condition; present before the query in 3/4 of the cases). (a3) one query in three is also asked negated (`NOT goal`, which fails exactly when the goal can be derived, i.e. after rules ran).".into()
+        "(b) Facts API, exhaustive: ALL sequences of length L (5 quick, 6 thorough) over the 20-operation alphabet begin / commit / rollback / set(k, 1 | {f:0}) / set_nested(k.f, 1 | 2) / remove(k), k in {a,b,c}, plus set / remove of the FLAT key \"a.x\" (a name that extends the key a), from 2 initial stores ({} and {a:{f:0}, b:0}); the whole store is compared with the stack-of-snapshots model after every operation, so every prefix (every shorter sequence) is checked too. random: lengths 6..=10 over the same alphabet with begin/commit/rollback weighted up. A sequence is non-trivial when it rolls back at least one frame in which the store had changed; distinct by (initial store, operations). (a) queries: the C09 generator (Horn KBs of 1..=8 rules from GRL text, chains to depth 6 with wrong-value conclusions, dead ends, cycles, parents with two sub-goals; 14 queries per KB; dfs/bfs/iterative; max_depth 0..=6; max_solutions 1 or 3); every answer `provable == false` is judged; non-trivial when some candidate rule of the goal is fireable in the reference closure (the attempt could derive something before failing). (a2) one in three of those queries is asked again over the same rules with 1-3 side-effect actions added to the parsed rules (Append to an array, Retract of a key, Set of an unrelated key, a method call that fails; before or after the rule's conclusions; the touched keys Aux.* occur in no condition; present before the query in 3/4 of the cases). (a3) one query in three is also asked negated (`NOT goal`, which fails exactly when the goal can be derived, i.e. after rules ran).".into()
     }
     fn assumptions(&self) -> Vec<String> {
         vec![
@@ -871,7 +877,7 @@ impl Check for C10 {
                     if rng.chance(1, 3) && !plan.kb.rules.is_empty() {
                         // the same query over the same rules carrying 1-3 side-effect actions
                         let nside = 1 + rng.below(3);
-                        let side = (0..nside).map(|_| Side { rule: rng.below(plan.kb.rules.len()), kind: rng.below(3) as u8, first: rng.bool() }).collect();
+                        let side = (0..nside).map(|_| Side { rule: rng.below(plan.kb.rules.len()), kind: rng.below(4) as u8, first: rng.bool() }).collect();
                         let sc = SCase { q: case.clone(), side, aux_present: rng.chance(3, 4), negated: false };
                         check_scase(&sc, &parsed, st);
                     }
